@@ -130,8 +130,37 @@ def branch_value(e, which):
     return e
 
 
+def ok_tuple(e):
+    if e is not None and e.get("k") == "call" and is_path(e["f"], "Ok") and e["args"] and e["args"][0].get("k") == "tuple" and len(e["args"][0]["elems"]) == 2:
+        return e["args"][0]["elems"]
+    return None
+
+
+def early_ok_returns(fn):
+    """`return Ok((a, b))` statements anywhere in the body (the normal exit is the tail expression)."""
+    out = []
+    for x in walk(fn["body"]):
+        if x.get("k") == "return" and x.get("e") is not None and ok_tuple(x["e"]) is not None:
+            out.append(x)
+    return out
+
+
+def rule_exits(rep, R):
+    """Every successful exit must account for the frames it reports: an early `return Ok(..)` that skips the bookkeeping at the end of
+    the call loses or duplicates frames (FFT adapters: saved_frames; asynchronous types: last_index / needed_input_size)."""
+    facts = rep.ctx.facts
+    for t in RESAMPLERS:
+        fn = facts.need_method(t, "process_into_buffer", "Resampler")
+        er = early_ok_returns(fn)
+        rep.ob(R, "%s/single-success-exit" % t, not er,
+               "process_into_buffer has %d early `return Ok(..)` (line %s) besides its tail expression: the end-of-call bookkeeping (saved frames / carried position / next request) is skipped on that path, so the frames "
+               "reported as consumed or produced are not accounted for" % (len(er), [x.get("ln") for x in er]), loc(fn, er[0]) if er else loc(fn),
+               sample={"type": t, "early_ok_returns": len(er)})
+
+
 def rule_conserve(rep, R):
     facts = rep.ctx.facts
+    rule_exits(rep, R)
     # ---- FftFixedIn --------------------------------------------------------------------------
     t = "FftFixedIn"
     m = extract(facts, t)
